@@ -171,21 +171,20 @@ KANI_UNITS["C30"] = dict(
     prop="C30", crate="varpulis-cluster",
     appends=[("crates/varpulis-cluster/src/rate_limit.rs", "__vpv_c30", "contracts/kani/c30.rs")],
     grade="K-complete", level="other", timeout=3600, harness_timeout=900,
-    cell_grades={"c30_reset_after_rate1$|c30_reset_after_rate50$|c30_refill_rate|c30_try_consume_rate": "K-bounded(concrete refill rate, elapsed time a whole number of seconds <= 900 000; bucket state and burst full-domain)"},
-    native_grade="bounded(native exhaustive enumeration: <= 3 clients, table capacity >= clients, burst 0..=2, rate 0, every request sequence of length <= 7)",
-    functions=["varpulis-cluster/src/rate_limit.rs: TokenBucket::new, remaining, reset_after, refill, try_consume, RateLimitConfig::new (Kani)",
-               "varpulis-cluster/src/rate_limit.rs: RateLimiter::check (native enumeration)"],
-    explanation=("PARTIAL. (1) Finite retry-after / no panic: loop-free cells over all u32 configurations (rate 0 and burst 0 included) and all f64 token levels with 0 <= tokens <= "
+    cell_grades={"c30_reset_after_rate1$|c30_reset_after_rate50$": "K-bounded(concrete rate)"},
+    native_grade="bounded(native exhaustive enumeration: refill — rates 1, 3, 50 x elapsed 0..=2.5 s in 100 ms steps x 4 token levels, two refills in a row; check — <= 3 clients, table capacity >= clients, burst 0..=2, rate 0, every request sequence of length <= 7)",
+    functions=["varpulis-cluster/src/rate_limit.rs: TokenBucket::new, remaining, reset_after, RateLimitConfig::new (Kani)",
+               "varpulis-cluster/src/rate_limit.rs: TokenBucket::refill, RateLimiter::check (native enumeration)"],
+    explanation=("PARTIAL. (1) Kani — finite retry-after / no panic: loop-free cells over all u32 configurations (rate 0 and burst 0 included) and all f64 token levels with 0 <= tokens <= "
                  "max_tokens: TokenBucket::new establishes the invariant; remaining never panics; reset_after returns without panicking a finite Duration (zero when a token is "
-                 "available, <= 1 s when rate >= 1). (2) The inductive step of the admission bound 'admitted <= burst + rate*T', at CONCRETE refill rates 1/s and 50/s (a product of two "
-                 "symbolic f64s did not finish in CBMC; Verus has no floats) with bucket state, burst and elapsed time symbolic: refill moves the reference time to now, keeps "
-                 "0 <= tokens <= burst, never removes tokens and credits exactly min(burst - tokens, elapsed*rate); try_consume admits iff a whole token is available after refill and "
-                 "removes exactly one. Summing the credits over an interval gives the bound for these rates; for other rates it is NOT decided. (3) RateLimiter::check (async tokio "
-                 "RwLock, per-IP HashMap, eviction) — BOUNDED STAND-IN run natively at rate 0: with the table never over capacity, every client is admitted exactly min(burst, requests) "
-                 "times, i.e. a tracked client never gets a fresh bucket. NOT decided: eviction order when new clients arrive at capacity; rates other than 1 and 50."),
+                 "available, <= 1 s when rate >= 1). (2) The admission bound 'admitted <= burst + rate*T' rests on refill / try_consume; Kani cells for them (concrete rates, symbolic "
+                 "state and elapsed seconds) did not finish in 900 s of CBMC in three formulations and Verus has no floats, so they are covered by BOUNDED STAND-INS run natively: two "
+                 "refills in a row credit an interval exactly once — elapsed*rate <= credit <= (time actually passed)*rate — for rates 1, 3, 50 and elapsed times 0..=2.5 s; and "
+                 "RateLimiter::check (async tokio RwLock, per-IP HashMap, eviction) at rate 0 with the table never over capacity admits every client exactly min(burst, requests) times, "
+                 "i.e. a tracked client never gets a fresh bucket. NOT decided: the bound for arbitrary rates and request-time sequences; eviction order when new clients arrive at capacity."),
     assumptions=["kani::stub std::time::Instant::now -> fixed Instant (transmute of (i64,u32); layout assumption)",
-                 "refill / try_consume cells: concrete rates 1 and 50 only; elapsed time = any whole number of seconds up to 900 000, plus 0 or 0.5 s",
-                 "RateLimiter::check: bounded native enumeration only — nothing is proved for it"],
+                 "bucket states in the Kani cells are restricted to the representation invariant 0 <= tokens <= max_tokens (established by new; its preservation by refill is only checked natively)",
+                 "refill, RateLimiter::check: bounded native enumeration only — nothing is proved for them"],
 )
 
 KANI_UNITS["C33"] = dict(
